@@ -29,6 +29,7 @@ func specC18() *propertySpec {
 			{"C18-R3", "bit-band table: for every L in 1..64 the full-width, forced-max and (L>=2) narrow draw of genUintNBiased are satisfiable; mixed-sign ranges split with 0 < pNeg < 1", ruleC18R3},
 			{"C18-R4", "float-pins: on exponent overflow the significand ranges of genUfloatRange are degenerate at the bound's own parts", ruleC18R4},
 			{"C18-R5", "all-fractions-reachable: the loop of genUfloatRange that clears trailing fraction bits runs maxR - r times with r drawn from 0..maxR, so that for r = maxR nothing is cleared and every value of the fraction range stays reachable", ruleC18R5},
+			{"C18-R6", "lexicographic-float-bounds: a float is the triple (exponent, integer part, fraction) compared lexicographically, so a part of the lower (upper) bound may restrict a draw only where every higher-order part is pinned to that bound's value: otherwise in-range floats with a larger integer part and a smaller fraction than min (or the mirror image at max) are never produced", ruleC18R6},
 		},
 	}
 }
@@ -264,9 +265,79 @@ func ruleC18R3(r *Run) {
 		r.Undecided("genUintNBiased#anchors", fn.Pos(), "anchor unresolved: bits.Len64(max) / the single drawBits call of genUintNBiased")
 		return
 	}
-	width, ok := p.resolve(dbs[0].Arg(0)).(*ssa.Phi)
-	if !ok {
-		r.Undecided("genUintNBiased#width", dbs[0].Instr.Pos(), "the drawn width is not a phi of the bit-length choices: "+p.expr(dbs[0].Arg(0)))
+	// the bit-length choices: the edges of a phi, or the returns of an inlined helper that computes the width
+	type choice struct {
+		val   ssa.Value
+		conds []edgeCond
+	}
+	var choices []choice
+	var widthPos token.Pos
+	var collect func(v ssa.Value, base []edgeCond, d int) bool
+	collect = func(v ssa.Value, base []edgeCond, d int) bool {
+		if d > 4 {
+			return false
+		}
+		switch x := p.resolve(v).(type) {
+		case *ssa.Phi:
+			if !widthPos.IsValid() {
+				widthPos = x.Pos()
+			}
+			for i, e := range x.Edges {
+				pred := x.Block().Preds[i]
+				if x.Block().Dominates(pred) && p.resolve(e) == ssa.Value(x) {
+					continue // retry back edge keeps the width
+				}
+				conds := append([]edgeCond{}, base...)
+				for _, g := range guardsOfLocal(pred) {
+					conds = append(conds, edgeCond{g.Cond, g.Pol})
+				}
+				if iff, ok := pred.Instrs[len(pred.Instrs)-1].(*ssa.If); ok && pred.Succs[0] != pred.Succs[1] {
+					conds = append(conds, edgeCond{iff.Cond, pred.Succs[0] == x.Block()})
+				}
+				if _, nested := p.resolve(e).(*ssa.Phi); nested && p.resolve(e) != ssa.Value(x) {
+					if !collect(e, conds, d+1) {
+						return false
+					}
+					continue
+				}
+				choices = append(choices, choice{e, conds})
+			}
+			return true
+		case *ssa.Extract:
+			c, ok := x.Tuple.(*ssa.Call)
+			if !ok {
+				return false
+			}
+			h := transparentCallee(c)
+			if h == nil {
+				return false
+			}
+			if !widthPos.IsValid() {
+				widthPos = c.Pos()
+			}
+			for _, ret := range returnsOf(h) {
+				if x.Index >= len(ret.Results) {
+					return false
+				}
+				conds := append([]edgeCond{}, base...)
+				for _, g := range guardsOfLocal(ret.Block()) {
+					conds = append(conds, edgeCond{g.Cond, g.Pol})
+				}
+				rv := p.res(ret, x.Index)
+				if _, nested := p.resolve(rv).(*ssa.Phi); nested {
+					if !collect(rv, conds, d+1) {
+						return false
+					}
+					continue
+				}
+				choices = append(choices, choice{rv, conds})
+			}
+			return true
+		}
+		return false
+	}
+	if !collect(dbs[0].Arg(0), nil, 0) || len(choices) == 0 {
+		r.Undecided("genUintNBiased#width", dbs[0].Instr.Pos(), "the drawn width is neither a phi of the bit-length choices nor the result of an inlined helper choosing it: "+p.expr(dbs[0].Arg(0)))
 		return
 	}
 	const nMax = int64(1) << 40
@@ -359,13 +430,9 @@ func ruleC18R3(r *Run) {
 		desc  string
 	}
 	var edges []edge
-	for i, e := range width.Edges {
-		pred := width.Block().Preds[i]
-		if width.Block().Dominates(pred) && p.resolve(e) == ssa.Value(width) {
-			continue // retry back edge keeps the width
-		}
+	for _, ch := range choices {
 		var ed edge
-		er := p.resolve(e)
+		er := p.resolve(ch.val)
 		switch {
 		case er == Lval:
 			ed.kind = "full"
@@ -375,16 +442,11 @@ func ruleC18R3(r *Run) {
 			if c, ok := constInt(er); ok && c > 64 {
 				ed.kind = "max"
 			} else {
-				r.Undecided("genUintNBiased#width-edge", width.Pos(), "unrecognised bit-length choice "+p.expr(er))
+				r.Undecided("genUintNBiased#width-edge", widthPos, "unrecognised bit-length choice "+p.expr(er))
 				return
 			}
 		}
-		for _, g := range guardsOf(pred) {
-			ed.conds = append(ed.conds, edgeCond{g.Cond, g.Pol})
-		}
-		if iff, ok := pred.Instrs[len(pred.Instrs)-1].(*ssa.If); ok && pred.Succs[0] != pred.Succs[1] {
-			ed.conds = append(ed.conds, edgeCond{iff.Cond, pred.Succs[0] == width.Block()})
-		}
+		ed.conds = ch.conds
 		var ds []string
 		for _, c := range ed.conds {
 			ds = append(ds, p.relOf(guard{Cond: c.cond, Pol: c.pol}).String())
@@ -409,7 +471,7 @@ func ruleC18R3(r *Run) {
 	for _, e := range edges {
 		kinds[e.kind]++
 	}
-	r.Check("genUintNBiased#choices", width.Pos(), kinds["full"] >= 1 && kinds["max"] >= 1 && kinds["narrow"] >= 1,
+	r.Check("genUintNBiased#choices", widthPos, kinds["full"] >= 1 && kinds["max"] >= 1 && kinds["narrow"] >= 1,
 		fmt.Sprintf("bit-length choices: %v", kinds), fmt.Sprintf("genUintNBiased lacks one of the full-width / forced-max / narrow choices: %v", kinds))
 	// solve per L
 	type missing struct{ full, max, narrow []int }
@@ -513,24 +575,24 @@ func ruleC18R3(r *Run) {
 		}
 	}
 	if undecided != "" {
-		r.Undecided("genUintNBiased#bands", width.Pos(), "the bit-length guards cannot be folded: "+undecided)
+		r.Undecided("genUintNBiased#bands", widthPos, "the bit-length guards cannot be folded: "+undecided)
 		return
 	}
 	var eds []string
 	for _, e := range edges {
 		eds = append(eds, e.kind+": "+e.desc)
 	}
-	r.Check("genUintNBiased#full-width", width.Pos(), len(miss.full) == 0, "for every L in 1..64 some n >= 1 selects the full-width draw ("+strings.Join(eds, " | ")+")",
+	r.Check("genUintNBiased#full-width", widthPos, len(miss.full) == 0, "for every L in 1..64 some n >= 1 selects the full-width draw ("+strings.Join(eds, " | ")+")",
 		fmt.Sprintf("for bit lengths L=%v no value of the geometric draw selects a full-width draw: apart from the maximum itself no value of the top bit band of such ranges (e.g. Uint64 values in [2^63, 2^64-2] for L=64) can ever be generated (%s)", miss.full, strings.Join(eds, " | ")))
-	r.Check("genUintNBiased#forced-max", width.Pos(), len(miss.max) == 0, "for every L the forced-maximum path is satisfiable", fmt.Sprintf("for L=%v the forced-maximum path is unsatisfiable", miss.max))
-	r.Check("genUintNBiased#narrow", width.Pos(), len(miss.narrow) == 0, "for every L >= 2 a narrower draw is satisfiable (small values / range minimum)", fmt.Sprintf("for L=%v no narrower draw is satisfiable", miss.narrow))
+	r.Check("genUintNBiased#forced-max", widthPos, len(miss.max) == 0, "for every L the forced-maximum path is satisfiable", fmt.Sprintf("for L=%v the forced-maximum path is unsatisfiable", miss.max))
+	r.Check("genUintNBiased#narrow", widthPos, len(miss.narrow) == 0, "for every L >= 2 a narrower draw is satisfiable (small values / range minimum)", fmt.Sprintf("for L=%v no narrower draw is satisfiable", miss.narrow))
 	// forced max really yields max; u <= max acceptance
 	okForce := false
 	for _, b := range p.body(fn) {
 		for _, in := range b.Instrs {
 			if ph, ok := in.(*ssa.Phi); ok {
 				for i, e := range ph.Edges {
-					if p.expr(e) == "$max" && holds(p.facts(ph.Block().Preds[i].Instrs[0]), p.expr(width), ">", "64") {
+					if p.expr(e) == "$max" && holds(p.facts(ph.Block().Preds[i].Instrs[0]), p.expr(dbs[0].Arg(0)), ">", "64") {
 						okForce = true
 					}
 				}
@@ -624,27 +686,50 @@ func ruleC18R4(r *Run) {
 	r.Check("genUfloatRange#exponent-biased", gir[0].Instr.Pos(), isC && b, "the exponent is drawn with bias (explicit min/max paths exist)", "the exponent is drawn without bias: the overflow flags that pin min/max are never set")
 	n := 0
 	for _, cs := range p.callsTo(fn, "genUintRange") {
+		// the (lowest, highest) pairs the range can take, with the facts under which it takes them: the edges of two
+		// phis in one block, or the returns of a helper that computes both bounds
+		type pair struct {
+			lo, hi ssa.Value
+			facts  []rel
+		}
+		var pairs []pair
 		lo, okL := p.resolve(cs.Arg(1)).(*ssa.Phi)
 		hi, okH := p.resolve(cs.Arg(2)).(*ssa.Phi)
-		if !okL || !okH || lo.Block() != hi.Block() {
+		if okL && okH && lo.Block() == hi.Block() {
+			for i, pred := range lo.Block().Preds {
+				facts := p.facts(pred.Instrs[len(pred.Instrs)-1])
+				if iff, ok := pred.Instrs[len(pred.Instrs)-1].(*ssa.If); ok {
+					facts = append(facts, p.relOf(guard{Cond: iff.Cond, Pol: pred.Succs[0] == lo.Block()}))
+				}
+				pairs = append(pairs, pair{lo.Edges[i], hi.Edges[i], facts})
+			}
+		} else if e1, ok1 := cs.Arg(1).(*ssa.Extract); ok1 {
+			if e2, ok2 := cs.Arg(2).(*ssa.Extract); ok2 && e1.Tuple == e2.Tuple {
+				if c, ok := e1.Tuple.(*ssa.Call); ok {
+					if h := transparentCallee(c); h != nil {
+						for _, ret := range returnsOf(h) {
+							if e1.Index < len(ret.Results) && e2.Index < len(ret.Results) {
+								pairs = append(pairs, pair{p.res(ret, e1.Index), p.res(ret, e2.Index), p.facts(ret)})
+							}
+						}
+					}
+				}
+			}
+		}
+		if len(pairs) == 0 {
 			continue
 		}
 		n++
 		okPins := 0
-		for i, pred := range lo.Block().Preds {
-			facts := p.facts(pred.Instrs[len(pred.Instrs)-1])
-			// also the edge's own branch
-			if iff, ok := pred.Instrs[len(pred.Instrs)-1].(*ssa.If); ok {
-				facts = append(facts, p.relOf(guard{Cond: iff.Cond, Pol: pred.Succs[0] == lo.Block()}))
-			}
+		for _, pr := range pairs {
 			for fi, fl := range []string{lOv, rOv} {
-				if holds(facts, fl, "==", "true") {
-					same := p.same(lo.Edges[i], hi.Edges[i]) || (isLocalFieldLoad(p.resolve(lo.Edges[i])) && isLocalFieldLoad(p.resolve(hi.Edges[i])) && p.expr(lo.Edges[i]) == p.expr(hi.Edges[i]))
-					isPart := partOfBound(p, lo.Edges[i], []string{"$min", "$max"}[fi], 0)
+				if holds(pr.facts, fl, "==", "true") {
+					same := p.same(pr.lo, pr.hi) || (isLocalFieldLoad(p.resolve(pr.lo)) && isLocalFieldLoad(p.resolve(pr.hi)) && p.expr(pr.lo) == p.expr(pr.hi)) || sameFieldOfSameValue(p, pr.lo, pr.hi)
+					isPart := partOfBound(p, pr.lo, []string{"$min", "$max"}[fi], 0)
 					if same && isPart {
 						okPins++
 					} else {
-						r.Fail("genUfloatRange#pin", cs.Instr.Pos(), "on exponent overflow ("+fl+") the significand range is ["+p.expr(lo.Edges[i])+", "+p.expr(hi.Edges[i])+"] instead of the bound's own part: the exact min/max float is not produced")
+						r.Fail("genUfloatRange#pin", cs.Instr.Pos(), "on exponent overflow ("+fl+") the significand range is ["+p.expr(pr.lo)+", "+p.expr(pr.hi)+"] instead of the bound's own part: the exact min/max float is not produced")
 					}
 				}
 			}
@@ -675,6 +760,18 @@ func partOfBound(p *Program, v ssa.Value, bound string, d int) bool {
 			}
 			return true
 		}
+	case *ssa.Field:
+		// a field of a struct value (a struct parameter of a helper)
+		srcs, ok := p.fieldOfValue(x.X, x.Field, 0)
+		if !ok {
+			return false
+		}
+		for _, s := range srcs {
+			if !partOfBound(p, s, bound, d+1) {
+				return false
+			}
+		}
+		return true
 	case *ssa.Phi:
 		for _, e := range x.Edges {
 			if !partOfBound(p, e, bound, d+1) {
@@ -689,6 +786,16 @@ func partOfBound(p *Program, v ssa.Value, bound string, d int) bool {
 		}
 		k := p.calleeKey(c.Common())
 		if k != "ufloat32Parts" && k != "ufloat64Parts" {
+			// a helper that picks the decomposition for the width: every return must be such a part
+			if h := transparentCallee(c); h != nil {
+				rets := returnsOf(h)
+				for _, ret := range rets {
+					if x.Index >= len(ret.Results) || !partOfBound(p, p.res(ret, x.Index), bound, d+1) {
+						return false
+					}
+				}
+				return len(rets) > 0
+			}
 			return false
 		}
 		return p.expr(p.stripConv(c.Common().Args[0])) == bound
@@ -787,7 +894,7 @@ func isLocalFieldLoad(v ssa.Value) bool {
 // findBugCounters identifies the loop counters of findBug by the results they are returned as: (valid, invalid, …).
 func findBugCounters(p *Program, v *findBugView) (valid, invalid *ssa.Phi) {
 	for _, ret := range returnsOf(v.fn) {
-		if len(ret.Results) < 2 {
+		if p.nres(ret) < 2 {
 			continue
 		}
 		if ph, ok := p.resolve(p.res(ret, 0)).(*ssa.Phi); ok && ph.Block() == v.loop.Header {
@@ -893,7 +1000,6 @@ func (p *Program) boolPhiAlternatives(cond ssa.Value, pol bool, d int) ([][]edge
 	return out, len(out) > 0
 }
 
-
 // ruleC18R5: genUfloatRange draws r = genUintNNoReject(s, maxR) and then clears (at most) the low maxR - r bits of the
 // fraction. Every fraction of [sfMin, sfMax] stays reachable only if the loop can run zero times, i.e. its iteration
 // count is A - r for the same A that bounds r. A larger constant part always clears some bits: most interior values
@@ -914,7 +1020,16 @@ func ruleC18R5(r *Run) {
 	isR := func(v ssa.Value) bool { return p.stripConv(v) == rc.Value() }
 	isA := func(v ssa.Value) bool { return p.stripConv(v) == A || p.same(p.stripConv(v), A) }
 	n := 0
-	for _, l := range loopsOf(fn) {
+	// the loops of genUfloatRange and of the helpers inlined into it
+	var loops []*loopInfo
+	seenFn := map[*ssa.Function]bool{}
+	for _, b := range p.body(fn) {
+		if f := b.Parent(); !seenFn[f] {
+			seenFn[f] = true
+			loops = append(loops, loopsOf(f)...)
+		}
+	}
+	for _, l := range loops {
 		if !dominates(rc.Instr, l.Header.Instrs[len(l.Header.Instrs)-1]) {
 			continue
 		}
@@ -984,4 +1099,204 @@ func ruleC18R5(r *Run) {
 	if n == 0 {
 		r.Undecided("genUfloatRange#trim-count", rc.Instr.Pos(), "no counted loop bounded by the drawn number of kept bits was found after genUintNNoReject")
 	}
+}
+
+// sameFieldOfSameValue: a and b read the same field of the same struct value.
+func sameFieldOfSameValue(p *Program, a, b ssa.Value) bool {
+	fa, ok1 := p.resolve(a).(*ssa.Field)
+	fb, ok2 := p.resolve(b).(*ssa.Field)
+	return ok1 && ok2 && fa.Field == fb.Field && fa.X == fb.X
+}
+
+// boundPartIndex: v is (a phi of) result #idx of ufloat32Parts/ufloat64Parts applied to the given bound parameter.
+func boundPartIndex(p *Program, v ssa.Value, bound string, d int) (int, bool) {
+	if d > 6 {
+		return 0, false
+	}
+	v = p.resolve(v)
+	merge := func(vs []ssa.Value) (int, bool) {
+		idx := -1
+		for _, e := range vs {
+			k, ok := boundPartIndex(p, e, bound, d+1)
+			if !ok || (idx >= 0 && k != idx) {
+				return 0, false
+			}
+			idx = k
+		}
+		return idx, idx >= 0
+	}
+	switch x := v.(type) {
+	case *ssa.UnOp:
+		if fa, ok := x.X.(*ssa.FieldAddr); ok && x.Op == token.MUL {
+			if srcs, ok := p.fieldSources(fa, 0); ok {
+				return merge(srcs)
+			}
+		}
+	case *ssa.Field:
+		if srcs, ok := p.fieldOfValue(x.X, x.Field, 0); ok {
+			return merge(srcs)
+		}
+	case *ssa.Phi:
+		return merge(x.Edges)
+	case *ssa.Extract:
+		c, ok := x.Tuple.(*ssa.Call)
+		if !ok {
+			return 0, false
+		}
+		if k := p.calleeKey(c.Common()); k != "ufloat32Parts" && k != "ufloat64Parts" {
+			if h := transparentCallee(c); h != nil {
+				var vs []ssa.Value
+				for _, ret := range returnsOf(h) {
+					if x.Index >= len(ret.Results) {
+						return 0, false
+					}
+					vs = append(vs, p.res(ret, x.Index))
+				}
+				return merge(vs)
+			}
+			return 0, false
+		}
+		if p.expr(p.stripConv(c.Common().Args[0])) == bound {
+			return x.Index, true
+		}
+	}
+	return 0, false
+}
+
+func ruleC18R6(r *Run) {
+	p := r.P
+	fn := r.MustFn("genUfloatRange")
+	if fn == nil {
+		return
+	}
+	gir := p.callsTo(fn, "genIntRange")
+	draws := p.callsTo(fn, "genUintRange")
+	if len(gir) != 1 || len(draws) != 2 {
+		r.Undecided("genUfloatRange#parts", fn.Pos(), fmt.Sprintf("expected one exponent draw (genIntRange) and two significand draws (genUintRange), found %d and %d", len(gir), len(draws)))
+		return
+	}
+	if dominates(draws[1].Instr, draws[0].Instr) {
+		draws[0], draws[1] = draws[1], draws[0]
+	}
+	isResult := func(v ssa.Value, call ssa.Value, idx int) bool {
+		v = p.stripConv(p.resolve(v))
+		if e, ok := v.(*ssa.Extract); ok {
+			return e.Tuple == call && e.Index == idx
+		}
+		return false
+	}
+	isPart := func(bound string, idx int) func(ssa.Value) bool {
+		return func(v ssa.Value) bool {
+			k, ok := boundPartIndex(p, p.stripConv(p.resolve(v)), bound, 0)
+			return ok && k == idx
+		}
+	}
+	isE := func(v ssa.Value) bool { return isResult(v, gir[0].Value(), 0) }
+	isSI := func(v ssa.Value) bool { return isResult(v, draws[0].Value(), 0) }
+	type edge struct {
+		lo, hi ssa.Value
+		guards []guard
+		pos    token.Pos
+	}
+	nEdges := 0
+	for k, cs := range draws {
+		var edges []edge
+		lo, okL := p.resolve(cs.Arg(1)).(*ssa.Phi)
+		hi, okH := p.resolve(cs.Arg(2)).(*ssa.Phi)
+		if okL && okH && lo.Block() == hi.Block() {
+			for i, pred := range lo.Block().Preds {
+				gs := guardsOf(pred)
+				if iff, ok := pred.Instrs[len(pred.Instrs)-1].(*ssa.If); ok && pred.Succs[0] != pred.Succs[1] {
+					g := guard{Cond: iff.Cond, Pol: pred.Succs[0] == lo.Block(), If: iff}
+					if ex, ok := expandBoolGuard(g, 0); ok {
+						gs = append(gs, ex...)
+					} else {
+						gs = append(gs, g)
+					}
+				}
+				edges = append(edges, edge{lo.Edges[i], hi.Edges[i], gs, pred.Instrs[len(pred.Instrs)-1].Pos()})
+			}
+		} else if e1, ok1 := cs.Arg(1).(*ssa.Extract); ok1 {
+			if e2, ok2 := cs.Arg(2).(*ssa.Extract); ok2 && e1.Tuple == e2.Tuple {
+				if c, ok := e1.Tuple.(*ssa.Call); ok {
+					if h := transparentCallee(c); h != nil {
+						for _, ret := range returnsOf(h) {
+							if e1.Index < len(ret.Results) && e2.Index < len(ret.Results) {
+								edges = append(edges, edge{p.res(ret, e1.Index), p.res(ret, e2.Index), guardsOf(ret.Block()), ret.Pos()})
+							}
+						}
+					}
+				}
+			}
+		}
+		if len(edges) == 0 {
+			r.Undecided(fmt.Sprintf("genUfloatRange#bounds[%d]", k), cs.Instr.Pos(), "the range of this significand draw is neither a pair of phis nor the result pair of an inlined helper")
+			continue
+		}
+		for _, e := range edges {
+			nEdges++
+			if !e.pos.IsValid() {
+				e.pos = cs.Instr.Pos()
+			}
+			// equalities and flags established on this edge
+			eq := func(a, b func(ssa.Value) bool) bool {
+				for _, g := range e.guards {
+					c, pol := g.Cond, g.Pol
+					for {
+						u, ok := p.resolve(c).(*ssa.UnOp)
+						if !ok || u.Op != token.NOT {
+							break
+						}
+						c, pol = u.X, !pol
+					}
+					bo, ok := p.resolve(c).(*ssa.BinOp)
+					if !ok || !((bo.Op == token.EQL && pol) || (bo.Op == token.NEQ && !pol)) {
+						continue
+					}
+					if (a(bo.X) && b(bo.Y)) || (a(bo.Y) && b(bo.X)) {
+						return true
+					}
+				}
+				return false
+			}
+			flag := func(idx int) bool {
+				for _, g := range e.guards {
+					c, pol := g.Cond, g.Pol
+					for {
+						u, ok := p.resolve(c).(*ssa.UnOp)
+						if !ok || u.Op != token.NOT {
+							break
+						}
+						c, pol = u.X, !pol
+					}
+					if pol && isResult(c, gir[0].Value(), idx) {
+						return true
+					}
+				}
+				return false
+			}
+			for side, bound := range []string{"$min", "$max"} {
+				v := []ssa.Value{e.lo, e.hi}[side]
+				part, ok := boundPartIndex(p, p.stripConv(p.resolve(v)), bound, 0)
+				if !ok {
+					continue // not restricted by this bound on this edge
+				}
+				what := []string{"lower", "upper"}[side]
+				construct := fmt.Sprintf("genUfloatRange#%s-bound[%d]", what, k)
+				if flag(1 + side) {
+					r.OK(construct, e.pos, "exponent overflow: pinned to the bound (C18-R4)")
+					continue
+				}
+				sameExp := eq(isPart("$min", 0), isPart("$max", 0))
+				ePinned := eq(isE, isPart(bound, 0)) || sameExp
+				okPinned := ePinned && part == k+1
+				if k == 1 {
+					siPinned := eq(isSI, isPart(bound, 1)) || (sameExp && eq(isPart("$min", 1), isPart("$max", 1)))
+					okPinned = okPinned && siPinned
+				}
+				r.Check(construct, e.pos, okPinned, "the "+what+" bound's part restricts this draw only where all higher-order parts equal the bound's", fmt.Sprintf("the %s limit of significand draw #%d is taken from %s (%s) on an edge where the higher-order parts are not all pinned to that bound (exponent pinned: %v): floats of the range whose higher-order part is strictly inside and whose lower-order part is beyond the bound's are never generated", what, k+1, bound[1:], p.expr(v), ePinned))
+			}
+		}
+	}
+	r.Floor("edges of the significand ranges of genUfloatRange", nEdges, 8)
 }
